@@ -11,7 +11,7 @@ FUNCTIONS = [
     "batchie.models.main.predict_viability_all / ModelEvaluation.save_h5 / load_h5",
 ]
 BOUNDS = {
-    "quick": "holders of 1, 2, 3, 10, 11, 12 and 101 samples ('10' < '2' and '100' < '11' matter), every parameter a symbolic float64 of tiny shape (float32 casts visible); both sample types, empty and non-empty single-effect table; 2 chains of lengths (3,2), (1,11), (11,1), (2,11), (1,1) and 3 chains (2,1,2), (11,2,1) in every file order",
+    "quick": "holders of 1, 2, 3, 10, 11, 12 and 101 samples ('10' < '2' and '100' < '11' matter), every parameter a symbolic float64 of tiny shape (float32 casts visible); both sample types, empty and non-empty single-effect table; three parameters of one sample ranging over every float class (finite, NaN, +inf, -inf, -0.0); 2 chains of lengths (3,2), (1,11), (11,1), (2,11), (1,1) and 3 chains (2,1,2), (11,2,1) in every file order",
     "thorough": "holders of every size 1..25 and of 101 and 112 samples (three-digit keys: '100' < '11'), larger parameter shapes (3 samples x 3 treatments x 2 dimensions); every pair of chain lengths from {1,2,3,10,11,12}, every triple from {1,2,11}, 4, 5 and 6 chains; every file order",
 }
 ASSUMPTIONS = [
@@ -33,6 +33,7 @@ def configs(tier, seed):
         for n in (3, 11):
             out.append(dict(name="roundtrip combo n=%d larger shapes" % n, h="roundtrip", kind="combo", n=n, shape=(3, 3, 2)))
             out.append(dict(name="roundtrip interaction table n=%d larger shapes" % n, h="roundtrip", kind="inter", n=n, shape=(3, 3, 2)))
+    out.append(dict(name="roundtrip combo n=%d parameters of every float class" % (1 if q else 2), h="roundtrip", kind="combo", n=1 if q else 2, special=True))
     out.append(dict(name="roundtrip interaction empty table", h="roundtrip", kind="inter_empty", n=2))
     out.append(dict(name="roundtrip interaction table", h="roundtrip", kind="inter", n=11 if q else 12))
     if q:
@@ -64,11 +65,12 @@ def fixtures(cfg):
     return [v]
 
 
-def _combo(ctx, sc, np, tag, nS=2, nT=2, D=1):
+def _combo(ctx, sc, np, tag, nS=2, nT=2, D=1, special=False):
     k = [0]
 
     def r():
-        x = ctx.real_bits("th%s_%d" % (tag, k[0]))
+        # special: the first two parameters (W[0][0], W[1][0]) and alpha range over every float class (NaN, +-inf, -0.0 too)
+        x = (ctx.float_bits if special and (k[0] < 2 or k[0] == nS * D + nS + 2 * nT * D + nT) else ctx.real_bits)("th%s_%d" % (tag, k[0]))
         k[0] += 1
         return x
     vals = dict(W=[[r() for _ in range(D)] for _ in range(nS)], W0=[r() for _ in range(nS)],
@@ -130,7 +132,7 @@ def h_roundtrip(ctx, cfg):
         lookup = {(0, -1): 1.0, (0, 0): ctx.real_bits("se0"), (1, 1): ctx.real_bits("se1"), (1, -1): 1.0}
     for i in range(n):
         if kind == "combo":
-            th, vals = _combo(ctx, sc, np, str(i), *cfg.get("shape", (2, 2, 1)))
+            th, vals = _combo(ctx, sc, np, str(i), *cfg.get("shape", (2, 2, 1)), special=cfg.get("special", False))
         else:
             th, vals = _inter(ctx, sci, np, str(i), lookup, *cfg.get("shape", (2, 2, 1)))
         holder.add_theta(th)
